@@ -151,6 +151,6 @@ pub fn def() -> PropertyDef {
                constant origin for constant-interval input with >=2 samples per segment, init byte-stability); non-trivial = >=3 segments and \
                (first DTS != 0 or irregular spacing)",
         assumptions: &["gaps below 2^31 ticks and |pts-dts| below 2^31 (beyond: C16)"],
-        subs: vec![Box::new(PSub { name: "timeline", quick: 5000, thorough: 200_000, strat, eval })],
+        subs: vec![Box::new(PSub { name: "timeline", quick: 40000, thorough: 1200000, strat, eval })],
     }
 }
